@@ -70,7 +70,7 @@ def events(ops, outs):
             continue
         f = l.split()
         if f[0] == "cfg":
-            cfg = f
+            cfg = f if o == "ok" else None      # a rejected configuration starts no scenario
             continue
         if cfg is None or len(cfg) < 2 or cfg[1] not in ("rate", "set"):
             continue
@@ -192,7 +192,7 @@ def gen_source_ops(rng, rates, sources, n_ops, allow_retry=True, allow_rates=Fal
     while len(lines) < n_ops:
         mode = rng.random()
         if mode < 0.3:          # burst at one instant
-            k = rng.randint(1, minb + 4)
+            k = rng.randint(1, min(minb, 30) + 4)
             step = lambda: 0
         elif mode < 0.75:       # sustained
             k = rng.randint(3, 40)
@@ -232,7 +232,7 @@ def gen_set_ops(rng, rates, n_ops, allow_update=False):
     while len(lines) < n_ops:
         mode = rng.random()
         if mode < 0.3:
-            k, d = rng.randint(1, minb + 4), 0
+            k, d = rng.randint(1, min(minb, 30) + 4), 0
         elif mode < 0.8:
             k, d = rng.randint(3, 40), rng.choice(small)
         else:
